@@ -23,7 +23,7 @@ A_SSE = A_ENGINE + [
 PARTIAL = {
     "C01": "proved for all inputs: CJJ14.PiBas and CJJ14.PiPack (Enc |- Repr, Repr |- Search == DB[w], composed client lemma) and the shared toolkit callees; bounded stand-in only: the other seven schemes",
     "C02": "proved for all inputs: CJJ14.PiBas, CJJ14.PiPack (absent keyword => empty result, no exception); bounded stand-in only: the other seven schemes",
-    "C03": "proved for all inputs: CJJ14.PiBas / PiPack key/token/EDB/result round trips and config parsing; bounded stand-in only: the other seven schemes and the server-side composition",
+    "C03": "proved for all inputs: key / token / result / encrypted-database serialize + deserialize of all nine schemes (exact ValueError conditions, field layout, deserialize(serialize(x)) == x for every well-formed object; modulo P1 for the pickled parts) except the SSE-1 / SSE-2 key parsers (star-args over a computed list: bounded only); CJJ14.PiBas / PiPack config parsing; bounded stand-in only: the server-side composition through JSON config + wire formats and the two key parsers",
     "C05": "proved for all inputs: CJJ14.PiBas |D| == N, CJJ14.PiPack |D| == number of blocks, and the table builder's size; bounded stand-in only: the other seven schemes and value-length uniformity",
     "C06": "proved for all inputs: the label-table builders of CJJ14.PiBas / PiPack store labels in strictly ascending order (modulo B3); bounded stand-in only: the other builders and array placement",
     "C07": "proved for all inputs: for all nine schemes, KeyGen/EDBSetup/TokenGen/Search and _Gen/_Enc/_Trap/_Search (with every function they call, transitively) mutate nothing reachable from their arguments or from self -- frame contracts decided by the ownership pass (pyvc/own.py: abstract interpretation of the real AST, one obligation per mutating statement); for CJJ14.PiBas / PiPack the same frame obligations are also discharged by the SMT engine together with the functional contracts; bounded stand-in only: the history claim (results independent of earlier operations) and value-level equality of arguments before/after",
@@ -57,7 +57,7 @@ PROPS = {
     "C18": dict(modules=["bits"], assumptions=A_ENGINE, bounded=[]),
     "C01": dict(modules=["pibas", "pipack", "sse_bounded"], assumptions=A_SSE, bounded=[], partial=PARTIAL["C01"], runtime_checks=[["sse_bounded", "rt_c01_c02"]]),
     "C02": dict(modules=["pibas", "pipack", "sse_bounded"], assumptions=A_SSE, bounded=[], partial=PARTIAL["C02"], runtime_checks=[["sse_bounded", "rt_c01_c02"]]),
-    "C03": dict(modules=["pibas", "pipack", "sse_bounded"], assumptions=A_SSE, bounded=[], partial=PARTIAL["C03"], runtime_checks=[["sse_bounded", "rt_c03"]]),
+    "C03": dict(modules=["pibas", "pipack", "structures_all", "sse_bounded"], assumptions=A_SSE, bounded=[], partial=PARTIAL["C03"], runtime_checks=[["sse_bounded", "rt_c03"]]),
     "C04": dict(modules=["pibas", "pipack", "sse_bounded"], assumptions=A_SSE + ["A4/A2 (NOT decided): absence of chance substrings / collisions is probabilistic"], bounded=[],
                 partial=PARTIAL["C04"], runtime_checks=[["sse_bounded", "rt_c04"]], prov_contracts=PROV_CONTRACTS),
     "C05": dict(modules=["pibas", "pipack", "sse_bounded"], assumptions=A_SSE, bounded=[], partial=PARTIAL["C05"], runtime_checks=[["sse_bounded", "rt_c05"]]),
